@@ -49,14 +49,18 @@ TypeOf(e, env, home) ==
 (* One entry per node of OalSyntax!Ranges, in the same pre-order:                 *)
 (*   [val |-> the node is a value instance, ty |-> its type]  for expressions      *)
 (*   [val |-> FALSE, ty |-> ""]                               for statements        *)
-Ent(isval, ty) == [val |-> isval, ty |-> ty]
+\* lit: the keyword-valued attribute of the value instance (operator of a binary / unary operation, TRUE / FALSE of a boolean
+\* literal) in its canonical letter case, "" for the others
+EntL(isval, ty, lit) == [val |-> isval, ty |-> ty, lit |-> lit]
+Ent(isval, ty) == EntL(isval, ty, "")
 
 RECURSIVE EE(_, _, _, _), EPs(_, _, _)
 \* entries of expression e; `asval`: the node itself becomes a value instance
 EE(e, env, home, asval) ==
     CASE e.t = "paren" -> EE(e.e, env, home, asval)
-      [] e.t = "bin" -> <<Ent(asval, TypeOf(e, env, home).ty)>> \o EE(e.l, env, home, TRUE) \o EE(e.r, env, home, TRUE)
-      [] e.t = "un" -> <<Ent(asval, TypeOf(e, env, home).ty)>> \o EE(e.e, env, home, TRUE)
+      [] e.t = "bin" -> <<EntL(asval, TypeOf(e, env, home).ty, e.op)>> \o EE(e.l, env, home, TRUE) \o EE(e.r, env, home, TRUE)
+      [] e.t = "un" -> <<EntL(asval, TypeOf(e, env, home).ty, e.op)>> \o EE(e.e, env, home, TRUE)
+      [] e.t = "bool" -> <<EntL(asval, "boolean", IF e.v = "true" THEN "TRUE" ELSE "FALSE")>>
       [] e.t = "field" -> <<Ent(asval, TypeOf(e, env, home).ty)>> \o EE(e.h, env, home, TRUE)
       [] e.t = "index" -> <<Ent(asval, "")>> \o EE(e.h, env, home, TRUE) \o EE(e.e, env, home, TRUE)
       [] e.t \in {"fcall", "icall"} -> <<Ent(asval, TypeOf(e, env, home).ty)>> \o EPs(e.ps, env, home)
@@ -119,7 +123,7 @@ SB(b, a) ==
     IN Walk(1, a, <<>>, [a |-> a, b |-> a])
 \* entries of statement s at token index a, then those of its nested blocks
 SS(s, a, prev, first) ==
-    LET me == <<[k |-> s.t, a |-> a, b |-> a + Len(US(s)) - 1, prev |-> prev, first |-> first]>> IN
+    LET me == <<[k |-> s.t, tag |-> IF s.t \in {"select_from", "select_related"} THEN s.card ELSE "", a |-> a, b |-> a + Len(US(s)) - 1, prev |-> prev, first |-> first]>> IN
     CASE s.t = "if" ->
             LET cn == Len(UE(s.c))
                 b0 == a + 1 + cn + 1
